@@ -1,5 +1,5 @@
 CONSTANTS
-  Defects = {"walk_fconfig_only", "facets_unmasked", "errors_quote_clear"}
+  Defects <- CodeDefects
   MaxDepth = 2
   Classes = {"Filter", "VideoIn", "VideoOut", "ImageIn", "ImageOut", "MQTTOut", "Recorder", "REST", "Util", "Webvis"}
   SchemeClasses = {"rtsp", "https"}
